@@ -93,6 +93,10 @@ def run(eng, ctx):
             origin_ok = idx is not None and (idx[0] == "list" or True)
             pre = [info["pre"] for info in se.loop_info.values()]
             init_ok = any(p.get("index", ("?",))[0] == "list" for p in pre) or (idx is not None and idx[0] == "list")
+            if not init_ok and idx is not None and idx[0] == "loop" and len(idx) == 3:
+                # the loop-carried stack (whatever the variable is called) enters the loop as a list display of this call
+                p0 = (se.loop_info.get(idx[1], {}).get("pre") or {}).get(idx[2])
+                init_ok = p0 is not None and p0[0] == "list"
             ctx.check(init_ok, "C13.D2", drv.qualname, "index stack handed to the decoder", expected="a list display created in this call", found=str(idx)[:60], **eng.loc(drv, e.node))
             break
     ctx.rule("C13.D3", "mutations through class-level mutable attributes are preceded by a fresh per-instance assignment in the same function")
